@@ -11,4 +11,6 @@ ItemLeaves == {"P", "Tbl", "Code"}
 EmptyItemLeaves == {"P", "Code", "EI"}
 ListQuote == {"BL"}
 EmptyQuoteLeaves == {"H1", "H2", "P", "EQ"}
+QuoteLeaves == {"P", "Code"}
+QuoteConts == {"BL", "Q"}
 =============================================================================
